@@ -274,6 +274,45 @@ def resp_equal(impl, model):
 BAD = ("panic", "timeout", "crash")
 
 
+def spec_cols(oracle):
+    """verdicts of the extracted spec-level classifier carried by the oracle column:
+    fp=<first_problem verdict> sopt=<s_opt_reached> qoct=<request question octets | ->"""
+    d = {}
+    for tok in oracle.split():
+        for k in ("fp=", "sopt=", "qoct="):
+            if tok.startswith(k):
+                d[k[:-1]] = tok[len(k):]
+    return d
+
+
+def first_problem_ok(impl, oracle):
+    """Props/C08.v c08_first_problem / c08_formerr_response / c08_badvers_response / c08_silent_iff_first_problem,
+    evaluated on the implementation's response with the extracted classifier's verdict"""
+    fp = spec_cols(oracle).get("fp")
+    if fp is None:
+        return True
+    if fp == "silent":
+        return impl == "none"
+    if not impl.startswith("resp"):
+        return False
+    a = parse_resp(impl)
+    ar = a.get("AR", [])
+    opt = [x for x in ar if x.split("/")[1] == "41"]
+    tsig = [x for x in ar if x.split("/")[1] == "250"]
+    upper = (int(opt[0].split("/")[3]) >> 24) if opt else 0
+    nodata = a.get("an") == "0" and a.get("ns") == "0" and a.get("aa") == "0" and _only_pseudo(ar)
+    if fp.startswith("formerr:"):
+        return a.get("rc") == "1" and upper == 0 and not tsig and nodata
+    if fp.startswith("badvers:"):
+        return a.get("rc") == "0" and upper == 1 and len(opt) == 1 and not tsig and nodata
+    if fp.startswith("tsig:"):
+        return bool(tsig) or a.get("tc") == "1"
+    if fp == "clean":
+        # reaches the opcode dispatch with RCODE 0 and no TSIG: never FORMERR (extended RCODE 1), never a TSIG record
+        return not (a.get("rc") == "1" and upper == 0) and not tsig
+    return False
+
+
 def _both_resp(impl, oracle):
     return impl.startswith("resp") and oracle.startswith("resp")
 
@@ -319,7 +358,19 @@ def oracle_c03(case, impl, oracle):
         return impl.split()[0] == oracle.split()[0]
     a, b = parse_resp(impl), parse_resp(oracle)
     return all(a.get(k) == b.get(k) for k in ("id", "op", "rd", "qd", "Q")) and a.get("qr") == "1" \
-        and a.get("ra") == "0" and a.get("z") == "0" and question_echo_octets_ok(case, impl)
+        and a.get("ra") == "0" and a.get("z") == "0" and question_echo_octets_ok(case, impl) \
+        and spec_question_echo_ok(impl, oracle)
+
+
+def spec_question_echo_ok(impl, oracle):
+    """Props/C03.v c03_question_echo_octets: a response with a question to a request whose QNAME is uncompressed
+    (octets delimited by the extracted spec walker) carries exactly those octets at offset 12"""
+    q = spec_cols(oracle).get("qoct", "-")
+    d = parse_resp(impl)
+    if q == "-" or d.get("qd") != "1":
+        return True
+    raw = d.get("raw", "")
+    return raw[24:24 + len(q)] == q
 
 
 def finding_c03_pointer_qname(kf, case, impl, model, oracle):
@@ -356,6 +407,8 @@ def oracle_c07(case, impl, oracle):
 def oracle_c08(case, impl, oracle):
     if impl in BAD:
         return False
+    if not first_problem_ok(impl, oracle):
+        return False
     if not _both_resp(impl, oracle):
         return True
     a, b = parse_resp(impl), parse_resp(oracle)
@@ -385,6 +438,9 @@ def oracle_c09(case, impl, oracle):
         if owner != "00" or cl != edns_size or ((int(ttl) >> 16) & 0xFF) != 0 or rd != "-":
             return False
     if len(oa) > 1:
+        return False
+    sopt = spec_cols(oracle).get("sopt")
+    if sopt is not None and (len(oa) == 1) != (sopt == "1"):      # Props/C09.v c09_opt_iff_spec
         return False
     ob = opt_of(b)
     if ob is None:                 # answered from a loaded zone: the model still knows the OPT... via ar? no: skip
